@@ -6,7 +6,7 @@
 template <class R, class El, unsigned EPN, unsigned PR> struct NIK {
   using E = El;
   using queue = xenium::nikolaev_queue<typename El::type, xenium::policy::reclaimer<R>, xenium::policy::entries_per_node<EPN>, xenium::policy::pop_retries<PR>>;
-  static constexpr bool keeps_rejected = false;
+  static constexpr bool keeps_rejected = false; static constexpr bool strong_blocks = false;
   static queue* create() { return new queue; }
   static void cfg() { xv::ev("cfg", "kind_fifo"); }
   static bool push(queue& q, typename El::type&& v) { q.push(std::move(v)); return true; }
